@@ -93,6 +93,8 @@ MUTATIONS = [
  ('m71', 'C09', 'src/transform/adapt/low_rank.rs', r's/            background_split: 0,/            background_split: 1,/', 'low-rank strategy starts with a background split of 1: the first switch drops the start point only by accident of the count (mutation campaign)'),
  ('m72', 'C03', 'src/nuts.rs', r's/        self\.depth \+= 1;/        self.depth += 0;/', 'merge_into never increases the depth: the doubling loop does not terminate (mutation campaign)'),
  ('e16', 'C06', 'src/adapt_strategy.rs', r's/let final_second_step_size = num_tune\.saturating_sub\(step_size_window\);/let final_second_step_size = ((1.0 - options.step_size_window).max(0.0) * num_tune_f).floor() as u64; let _ = step_size_window;/', 'NOT A VIOLATION: the final window is still the last step_size_window fraction of warm-up, only rounded the other way (at most one draw)'),
+ ('e17', 'C09', 'src/transform/adapt/low_rank.rs', r's/        for _ in 0\.\.self\.background_split \{\n            self\.draws\.pop_front\(\)\.expect\("Could not drop draw"\);\n            self\.grads\.pop_front\(\)\.expect\("Could not drop gradient"\);\n        \}/        let keep = self.draws.len() - self.background_split;\n        while self.draws.len() > keep {\n            self.draws.pop_front().expect("Could not drop draw");\n            self.grads.pop_front().expect("Could not drop gradient");\n        }/', 'EQUIVALENT (drop loop written as a while over the remaining length)'),
+ ('e18', 'C12', 'src/sampler.rs', r's/                    draw \+= 1;\n                    if draw == draws \{\n                        break;\n                    \}/                    draw += 1;\n                    if draw >= draws {\n                        break;\n                    }/', 'EQUIVALENT (== as >= on a counter that advances by one)'),
  ('e01', 'C18', 'src/mclmc.rs', r's/&& self.draw_count == self.switch_draw/&& self.draw_count >= self.switch_draw/', 'EQUIVALENT on reachable states: must not be flagged'),
  ('e02', 'C08', 'src/math/cpu_math.rs', r's/\*mean \+= diff \* diff_scale;\n                \*var \+= diff \* diff;/*mean += diff * diff_scale;\n                *var += diff * (x - *mean);/', 'EQUIVALENT for the property (ratio of variances unchanged): must not be flagged'),
 ]
